@@ -633,6 +633,42 @@ def gen_inheritance(rng, flags, name_base="base"):
     return out, parent   # templates, most-derived name
 
 
+def gen_broken_inheritance(rng, good_top, block_names=("b0", "b1")):
+    """Templates whose inheritance chain FAILS while it is being resolved (missing parent, circular
+    extends, duplicate block in a parent, two extends tags), each with more content after the point
+    of failure, plus main templates that render a broken one and then a healthy one in the same
+    render.  In lax / warn mode rendering carries on after the error, so whatever the failed
+    resolution left behind in the render context is observable."""
+    def blk(name, label, leak=True):
+        body = [["text", "%s-%s " % (label, name)], ["out", "block.super", ""]]
+        if leak:
+            body.append(["tag", "assign", "leak_%s = '%s'" % (name, label), ""])
+        return ["block", "block", name, body, [], "endblock", ""]
+
+    def tail(names):
+        return [["text", "~"]] + [["out", "leak_%s" % n, ""] for n in names]
+    b = list(block_names)
+    t = {
+        "brk_orphan": [["tag", "extends", "'brk_nope'", ""]] + [blk(n, "orphan") for n in b] + tail(b),
+        "brk_circ_a": [["tag", "extends", "'brk_circ_b'", ""]] + [blk(n, "ca") for n in b] + tail(b),
+        "brk_circ_b": [["tag", "extends", "'brk_circ_a'", ""]] + [blk(n, "cb") for n in b[:1]] + tail(b[:1]),
+        "brk_dup_parent": [["text", "<"], blk(b[0], "dp", False), ["text", "|"], blk(b[0], "dp2", False), ["text", ">"]],
+        "brk_dup_child": [["tag", "extends", "'brk_dup_parent'", ""]] + [blk(n, "dc") for n in b] + tail(b),
+        "brk_two_ext": [["tag", "extends", "'%s'" % good_top, ""], ["tag", "extends", "'brk_dup_parent'", ""]]
+                       + [blk(n, "te") for n in b] + tail(b),
+    }
+    broken = ["brk_orphan", "brk_circ_a", "brk_dup_child", "brk_two_ext"]
+    mains = []
+    for _ in range(2):
+        first = rng.choice(broken)
+        tag1 = rng.choice(["include", "include", "render"])
+        tag2 = rng.choice(["include", "include", "render"])
+        then = rng.choice([good_top, good_top, rng.choice(broken)])
+        mains.append([["text", "["], ["tag", tag1, "'%s'" % first, ""], ["text", "/"],
+                      ["tag", tag2, "'%s'" % then, ""], ["text", "]"]] + tail(b))
+    return t, mains, broken
+
+
 # ---------------------------------------------------------------------------
 # rendering a tree to source
 
